@@ -131,7 +131,7 @@ class JsonRPCServer:
                     reader=reader,
                     protocol=self.protocol,
                     logger=logger,
-                    error_handler=self.report_server_error,
+                    error_handler=self._report_server_error,
                 )
             )
         except BrokenPipeError:
@@ -158,7 +158,7 @@ class JsonRPCServer:
                     reader=stdin or sys.stdin.buffer,
                     protocol=self.protocol,
                     logger=logger,
-                    error_handler=self.report_server_error,
+                    error_handler=self._report_server_error,
                 )
             )
         except BrokenPipeError:
@@ -184,7 +184,7 @@ class JsonRPCServer:
                 reader=reader,
                 protocol=self.protocol,
                 logger=logger,
-                error_handler=self.report_server_error,
+                error_handler=self._report_server_error,
             )
             logger.debug("Main loop finished")
             self.shutdown()
@@ -222,7 +222,7 @@ class JsonRPCServer:
                 websocket=websocket,
                 protocol=self.protocol,
                 logger=logger,
-                error_handler=self.report_server_error,
+                error_handler=self._report_server_error,
             )
             self.shutdown()
 
